@@ -51,7 +51,8 @@ def run(ctx):
                          [(o["sess"], o["tag"], o["id"]) for o in r["outs"]],
                          (r["st"] or {}).get("sess"), (r["st"] or {}).get("wait"), r["deadlock"], r["hang"],
                          r["panic"], r["sched"]),
-                      {"kind": "schedule", "program": r["name"], "threads": r["threads"], "schedule": r["sched"],
+                      {"kind": "schedule", "program": r["name"], "threads": r["threads"], "post": r.get("post", []),
+                       "schedule": r["sched"],
                        "outcome": {"outs": r["outs"], "st": r["st"]}, "lock_trace": r.get("trace")})
     div = [b for b in bad if b["what"] == "StateDiverges"]
     if div and not [b for b in bad if b["what"] != "StateDiverges"]:
